@@ -13,7 +13,7 @@ import json
 
 import vlib
 
-THEOREM_MODULES = ["Yarel.Props.C11"]
+THEOREM_MODULES = ["Yarel.Props.C11", "Yarel.Props.ModelLimits"]
 REQUIRED_THEOREMS = ["intern_id_iff_bytes", "inv_reachable", "find_fuel_enough"]
 LEVEL = "proof"
 ASSUMPTIONS = [
@@ -91,7 +91,7 @@ def correspondence(ctx, model_ok=True):
     rng = ctx.rng.fork("c11")
     failures = []
     broken = []
-    n_cases = 400 if ctx.thorough else 80
+    n_cases = 1200 if ctx.thorough else 80
     profiles = ["full", "lowbits", "wrap", "few", "random"]
     seqs = []
     for i in range(n_cases):
@@ -225,7 +225,7 @@ def correspondence(ctx, model_ok=True):
 
     # (c) in-language routes
     progs = []
-    n_c = 600 if ctx.thorough else 120
+    n_c = 1800 if ctx.thorough else 120
     for i in range(n_c):
         progs.append(route_program(rng.fork("c%d" % i)) if i % 3 else route_program_values(rng.fork("v%d" % i)))
     c_lines = [vlib.case_line("c%d" % i, ["S:" + vlib.hx(p)], steps=2000000) for i, p in enumerate(progs)]
